@@ -459,7 +459,7 @@ class FuncTranslator:
             v = g.generators[0].target.id
             saved = set(self.locals)
             self.locals.add(v)
-            r = "(py_%s_gen (fun %s => %s) %s)" % (e.func.id, v, self.cond(g.elt), self.expr(g.generators[0].iter))
+            r = "(bind %s (py_%s_gen (fun %s => %s)))" % (self.expr(g.generators[0].iter), e.func.id, v, self.cond(g.elt))
             self.locals = saved
             return r
         return "(cond %s)" % self.expr(e)
@@ -651,6 +651,12 @@ class FuncTranslator:
                 return "(Ok (VObj %s 0))" % coq_string(f.id)
             if f.id in self.tr.identity_calls:
                 return self.expr(e.args[0])
+            if q == "jax.numpy.asarray" and len(e.args) == 1 and len(e.keywords) == 1 and e.keywords[0].arg == "dtype" \
+                    and isinstance(e.keywords[0].value, ast.Name) and e.keywords[0].value.id == "float":
+                return self.apply("np_asarray_float", [self.expr(e.args[0])])
+            if q == "jax.numpy.concatenate" and len(e.args) == 1 and len(e.keywords) == 1 and e.keywords[0].arg == "axis" \
+                    and isinstance(e.keywords[0].value, ast.Constant) and e.keywords[0].value.value == 1:
+                return self.apply("np_concat_cols", [self.expr(e.args[0])])
             if q in CALLS:
                 g, ar = CALLS[q]
                 if e.keywords or len(e.args) != ar:
